@@ -108,18 +108,19 @@ func checkDefs() map[string]CheckDef {
 	add(CheckDef{
 		ID: "C13",
 		Obligations: []Obligation{
-			{Pkg: "internal/verifh/c13", Harness: "VerifC13Buffer", Quick: map[string]int{"L": 6, "symLenK": 9}, TV: 15},
-			{Pkg: "internal/verifh/c13", Harness: "VerifC13Window", Quick: map[string]int{"W": 4, "stride": 4, "symLenK": 9}, TV: 15},
+			{Pkg: "internal/verifh/c13", Harness: "VerifC13Buffer", Quick: map[string]int{"L": 6, "symLenK": 9}, Thor: map[string]int{"L": 7}, TV: 15},
+			{Pkg: "internal/verifh/c13", Harness: "VerifC13Window", Quick: map[string]int{"W": 4, "stride": 4, "symLenK": 9}, Thor: map[string]int{"stride": 2}, TV: 15},
 			{Pkg: "internal/verifh/c13", Harness: "VerifC13PB", Quick: map[string]int{"maxSites": 70}, TV: 60},
 			{Pkg: "internal/verifh/c13", Harness: "VerifC13Zeros", Quick: map[string]int{"maxLen": 14}, TV: 15, Note: "every decoder on buffers of length 0..maxLen that are zero except 3 arbitrary bytes at an arbitrary offset"},
 			{Pkg: "internal/verifh/c13", Harness: "VerifC13BigIntLong", TV: 10, Note: "big integer decoder with declared lengths 0,1,127..130,200,255 and the payload present: lengths above the limit are refused whatever the value"},
+			{Pkg: "internal/verifh/c13", Harness: "VerifC13DimsLong", TV: 8, Note: "Balances and SubAlloc decoders with one declared dimension at its limit or one above (1 x 1024/1025, 1024/1025 x 1, 0 x 1025, 1025 x 0; 1024/1025 sub-allocation balances) and every declared element present in the stream: success exactly within the limits"},
 			{Pkg: "internal/verifh/c13", Harness: "VerifC13SparseSigs", Quick: map[string]int{"maxSlots": 9}, TV: 15, Note: "sparse signature decoder with the full payload present (0..9 slots, arbitrary mask incl. padding bits)"},
 		},
 		Assumptions: append(append([]string{}, commonAssumptions...), pbAssume,
 			"allocation bound: a decoder may pass at most 65536 to make before it has read the elements (the largest count a 16-bit length field can declare); natively the bound is confirmed through the bytes allocated by the decoder",
 			"window model: templates are concrete valid encodings (1 asset, 2 participants, 1 sub-allocation with index map, MockApp registered); the window content and an optional truncation point are arbitrary",
 			"protobuf model: well-formed generated structs with exactly one deviation (a nil sub-message, a repeated field with one element more or less, a byte field that is absent, one byte long or one byte too long, an arbitrary backend key, an arbitrary app definition); leaves are concrete except at the deviation"),
-		BoundsText: "buffer model: each of 20 decoder entry points (perunio BigInt/string/scalars, Balances, SubAlloc, Allocation, State, Params, Transaction, wallet and wire address maps and arrays, Sig, SparseSigs for 0..3 slots, OptApp, OptAppAndData, wire.DecodeMsg, perunio envelope serializer) on a fully symbolic buffer of every length 0..L (L=6); declared counts are read back from the buffer and compared with the documented limits on success; window model: W=4 arbitrary bytes at every 4-aligned offset of a valid encoding, optionally truncated inside or right after the window (State, Params, Envelope, AuthResponse, LedgerChannelProposalAcc, ChannelUpdateAcc; bound allTemplates=1 adds the 12 other templates incl. all composite messages - not part of the registered tiers); protobuf: 8 message kinds x up to 70 deviation sites through the real serializer.Decode",
+		BoundsText: "buffer model: each of 20 decoder entry points (perunio BigInt/string/scalars, Balances, SubAlloc, Allocation, State, Params, Transaction, wallet and wire address maps and arrays, Sig, SparseSigs for 0..3 slots, OptApp, OptAppAndData, wire.DecodeMsg, perunio envelope serializer) on a fully symbolic buffer of every length 0..L (L=6; 7 thorough); declared counts are read back from the buffer and compared with the documented limits on success; window model: W=4 arbitrary bytes at every 4-aligned offset (every 2-aligned offset thorough) of a valid encoding, optionally truncated inside or right after the window (State, Params, Envelope, AuthResponse, LedgerChannelProposalAcc, ChannelUpdateAcc; bound allTemplates=1 adds the 12 other templates incl. all composite messages - not part of the registered tiers); protobuf: 8 message kinds x up to 70 deviation sites through the real serializer.Decode; dimension limits: Balances and SubAlloc with one dimension at its limit or one above and the whole payload present",
 		Outside:    []string{"proto.Unmarshal itself", "two simultaneous deviations in one protobuf message", "windows wider than 4 bytes", "memory exhaustion below the allocation bound"},
 	})
 	add(CheckDef{
